@@ -3,10 +3,10 @@
 package main
 
 import (
+	"bytes"
+	"crypto"
 	"fmt"
 	"io"
-	"crypto"
-	"bytes"
 	"math/big"
 	"strconv"
 
@@ -141,22 +141,30 @@ func init() {
 			if !sig.Verify(hash, key.PubKey()) {
 				return "SELF-VERIFY-FAILED " + sigRSV(sig, true)
 			}
-			// a long-lived key object whose scalar earlier operations set to other values signs the same bytes
-			reuseSignKey.Key.Set(dk)
-			if lr := secp.Sign(reuseSignKey, hash); !bytes.Equal(lr.Serialize(), der) || !bytes.Equal(secp.SignCompact(reuseSignKey, hash, true), c1) {
-				return "DEPENDS-ON-KEY-OBJECT-HISTORY " + hx(lr.Serialize())
-			}
-			if m := sigObjectStable(sig, hash); m != "" {
+			// (the harness's own long-lived objects are guarded: goroutines of the concurrent run share them)
+			if m := func() string {
+				historyMu.Lock()
+				defer historyMu.Unlock()
+				// a long-lived key object whose scalar earlier operations set to other values signs the same bytes
+				reuseSignKey.Key.Set(dk)
+				if lr := secp.Sign(reuseSignKey, hash); !bytes.Equal(lr.Serialize(), der) || !bytes.Equal(secp.SignCompact(reuseSignKey, hash, true), c1) {
+					return "DEPENDS-ON-KEY-OBJECT-HISTORY " + hx(lr.Serialize())
+				}
+				if m := sigObjectStable(sig, hash); m != "" {
+					return m
+				}
+				// PubKey() of the long-lived object follows its current scalar, and the object it returns is the caller's own
+				pk1 := reuseSignKey.PubKey()
+				if !pk1.IsEqual(key.PubKey()) {
+					return "PUBKEY-DEPENDS-ON-KEY-OBJECT-HISTORY"
+				}
+				*pk1 = *secp.NewPrivateKey(scalarFromHex("02")).PubKey() // scribble over what we were handed
+				if !reuseSignKey.PubKey().IsEqual(key.PubKey()) {
+					return "PUBKEY-RETURNS-SHARED-OBJECT"
+				}
+				return ""
+			}(); m != "" {
 				return m
-			}
-			// PubKey() of the long-lived object follows its current scalar, and the object it returns is the caller's own
-			pk1 := reuseSignKey.PubKey()
-			if !pk1.IsEqual(key.PubKey()) {
-				return "PUBKEY-DEPENDS-ON-KEY-OBJECT-HISTORY"
-			}
-			*pk1 = *secp.NewPrivateKey(scalarFromHex("02")).PubKey() // scribble over what we were handed
-			if !reuseSignKey.PubKey().IsEqual(key.PubKey()) {
-				return "PUBKEY-RETURNS-SHARED-OBJECT"
 			}
 			// the crypto.Signer front end: the digest is signed as given, whatever hash the options name and
 			// whatever the (unused) entropy source does; only Format selects the encoding
@@ -195,7 +203,10 @@ func init() {
 				}
 			}
 			o := secp.NewSignature(scalarFromHex(a[3]), scalarFromHex(a[4]))
-			o.BruteforceRecoveryCode(hash, reuseSignKey.PubKey())
+			historyMu.Lock()
+			otherKey := reuseSignKey.PubKey()
+			historyMu.Unlock()
+			o.BruteforceRecoveryCode(hash, otherKey)
 			o.BruteforceRecoveryCode(hash, pub)
 			if o.Verify(hash, pub) != ans || sig.Verify(hash, pub) != ans {
 				return "VERDICT-DEPENDS-ON-OBJECT-HISTORY"
